@@ -47,6 +47,19 @@ Section Sem.
   Definition eff (e : nat) : Z := Z.of_nat (e mod 4).
   Definition odd_e (e : nat) : bool := Nat.eqb (e mod 4) 2.       (* e = 2t with t an odd integer *)
 
+
+  (* what rule_is_conjugation_G states of a gate G with claimed inverse Ginv and local rule f:
+     G P = f(P) G,  G P Ginv = f(P)  (signs included),  G Ginv = 1 *)
+  Definition conj1_ok (G Ginv : matrix) (f : loc1 -> loc1) : Prop :=
+    (forall p, mmul O G (pms1 p) = mmul O (pms1 (f p)) G) /\
+    (forall p, mmul O (mmul O G (pms1 p)) Ginv = pms1 (f p)) /\
+    mmul O G Ginv = mid O 2.
+  Definition conj2_ok (G Ginv : matrix) (f : loc2 -> loc2) : Prop :=
+    (forall p, mmul O G (pms2 p) = mmul O (pms2 (f p)) G) /\
+    (forall p, mmul O (mmul O G (pms2 p)) Ginv = pms2 (f p)) /\
+    mmul O G Ginv = mid O 4.
+  Definition evens : list nat := [0; 2; 4; 6].       (* e = 2t for integer exponents t *)
+
   (* ---- the action of a signed Pauli string on an n-qubit state (index digits 0/1, one per qubit):
      (P psi)(i) = sign * prod_j c(P_j, i_j) * psi(i with the digits at the X/Y positions flipped),
      i.e. row b of the Pauli matrix has its only entry c(p, b) in column b xor x. ---- *)
